@@ -62,6 +62,23 @@ fn main() {
 			sink.push(&format!("{name}/{block}/results-differ-from-default"), id, what);
 		}
 	}
+	// wide programs (lengths beyond 255) exist in no default-build transcript: the unsafe_performance build of the
+	// u16 period type is compared with the plain u16 build on them
+	if thorough {
+		if let (Some(a), Some(b)) = (env("VERIF_BIN_U16_TRANSCRIPT"), env("VERIF_BIN_U16_UNSAFE_TRANSCRIPT")) {
+			let ta = run_transcript(&a, &["--outputs-only", "--wide", "--only", "method"], None);
+			let tb = run_transcript(&b, &["--outputs-only", "--wide", "--only", "method"], None);
+			if !ta.complete || !tb.complete {
+				sink.push("u16-wide/build-crashed", "u16 vs u16+unsafe_performance, wide programs".into(), format!("{} {}", ta.signal_or_error, tb.signal_or_error).chars().take(400).collect());
+			} else {
+				let c = compare(&ta, &tb, false);
+				compared += c.compared;
+				for (block, id, what) in c.diffs {
+					sink.push(&format!("u16+unsafe_performance/{block}/results-differ-from-u16[wide programs]"), id, what);
+				}
+			}
+		}
+	}
 	// f32 builds among themselves
 	if let Some(f32bin) = env("VERIF_BIN_F32_TRANSCRIPT") {
 		let fb = run_transcript(&f32bin, &["--outputs-only"], None);
